@@ -455,6 +455,10 @@ def check(prog, res, tier):
     # ---- C01.h element round trip at descriptor level
     res.add(element_roundtrip_ob(prog, res, du))
 
+    # ---- C01.i dates are decoded by the inverse of the call that rendered them
+    for ob in date_inverse_obs(prog, res):
+        res.add(ob)
+
     # ---- C01.g codec flow
     bad = []
     n_codec = 0
@@ -606,3 +610,68 @@ def element_roundtrip_ob(prog, res, du):
                       f'{enc.module.path}:{enc.short}', '_iso8583_to_field(_field_to_iso8583(value))', chk,
                       sample=lambda ps: [f"{it_.user['vkind']}: {it_.user.get('out')!r} -> {p_.value!r}"[:260]
                                          for p_ in ps for it_ in [p_.interp] if p_.outcome == 'return'][:4])
+
+
+def date_inverse_obs(prog, res):
+    """format(value, fmt) on the way out, datetime.strptime(field, fmt) on the way in: the decoder must hand the whole field
+    and the configured format to strptime, or build a datetime whose year covers the whole two-digit-year window."""
+    from ..avals import lit as _lit
+    fi = prog.func('iso8583._string_to_pytype')
+    cfg = prog.config_literal()['bit_config']
+    fmts = sorted({v.get('field_date_format') for v in cfg.values() if v.get('field_date_format')} |
+                  {'%y%m%d', '%y%m%d%H%M%S'})
+    obs = []
+    for fmt in fmts + [None]:
+        def entry(it, fmt=fmt):
+            e = DictV(desc='bit_config entry')
+            e.items['field_type'] = _lit('FIXED')
+            e.items['field_python_type'] = _lit('datetime')
+            if fmt is None:
+                fv = it.sym_str('field_date_format', lo=2)
+                v = it.sym_str('field_data', lo=1, tags=frozenset(['wire']))
+            else:
+                fv = _lit(fmt)
+                import datetime as _dt
+                n = len(_dt.datetime(2001, 2, 3, 4, 5, 6).strftime(fmt))
+                v = it.sym_str('field_data', lo=n, hi=n, charset='digits', tags=frozenset(['wire']))
+            e.items['field_date_format'] = fv
+            e.items['field_length'] = IntV(v.length())
+            it.user.update(fmt=fv, value=v)
+            return it.call_function(fi, [v, e], {})
+        runs = Runs(prog, entry, res=res)
+
+        def chk(p, mode, fmt=fmt):
+            if p.outcome != 'return':
+                return []
+            it = p.interp
+            r = it.resolve(p.value)
+            u = it.user
+            org = getattr(r, 'origin', None)
+            if isinstance(r, SymV) and isinstance(org, tuple) and org and org[0] == 'strptime':
+                a = [it.resolve(x) for x in org[1]]
+                whole = len(a) >= 1 and isinstance(a[0], SeqV) and len(a[0].segs) == 1 and isinstance(a[0].segs[0], Sl) and \
+                    a[0].segs[0].src is u['value'].segs[0].src and p.store.decide_eq0(a[0].segs[0].lo) is True and \
+                    p.store.decide_eq0(a[0].segs[0].hi - u['value'].length()) is True
+                same_fmt = len(a) >= 2 and (a[1] is u['fmt'] or (isinstance(a[1], SeqV) and isinstance(u['fmt'], SeqV) and
+                                                             repr(a[1]) == repr(u['fmt'])))
+                fails = []
+                if not whole:
+                    fails.append(definite(f'strptime parses {a[0]!r}, not the whole field'))
+                if not same_fmt:
+                    fails.append(definite(f'strptime parses with {a[1] if len(a) > 1 else None!r}, not the configured date format'))
+                return fails
+            if isinstance(r, SymV) and isinstance(org, tuple) and org and org[0] == 'datetime-ctor':
+                args = org[1]
+                yr = it.resolve(args[0]) if args else it.resolve(org[2].get('year'))
+                if isinstance(yr, IntV) and fmt is not None and '%y' in fmt:
+                    lo, hi = p.store.bounds(yr.lin)
+                    if (lo is not None and lo > 1969) or (hi is not None and hi < 2068):
+                        return [definite(f'the datetime is built with a year in [{lo}, {hi}]: a two-digit year is the rendering of '
+                                         f'1969..2068 (strftime/strptime %y), so years outside [{lo}, {hi}] do not come back')]
+                return [soft('a datetime is constructed by hand: the inverse of strftime is not established')]
+            return [soft(f'a datetime element is decoded to {r!r}, not to the result of datetime.strptime(field, format)')]
+        obs.append(runs.judge('C01.i', f'datetime elements ({fmt or "any configured format"}) are decoded by strptime of the whole field '
+                                       f'with the configured format, the inverse of the format() that rendered them',
+                              func_where(fi), 'datetime.datetime.strptime(field_data, field_date_format)', chk,
+                              rule=f'C01.i.{fmt or "generic"}'))
+    return obs
